@@ -248,6 +248,45 @@ def work_fuzz(bins, seed, n, flags):
 
 
 # ---------------------------------------------------------------------------
+# template-function sweep: every documented function x argument grid x many values (binary)
+# ---------------------------------------------------------------------------
+def sweep_templates():
+    t = []
+    for ln in (0, 1, 7, 15, 16, 17, 32, 64, 4294967296):
+        t.append("{{ hash(value=bumped_branch, length=%d) }}" % ln)
+    for ln in (0, 1, 10, 19, 20, 21, 40, 65535, 65536):
+        for lz in ("true", "false"):
+            t.append("{{ hash_int(value=bumped_branch, length=%d, allow_leading_zero=%s) }}" % (ln, lz))
+    for ln in (0, 1, 3, 100):
+        t.append("{{ prefix(value=bumped_branch, length=%d) }}" % ln)
+    for args in ("", ", preset='semver'", ", preset='pep440'", ", preset='uint'", ", separator='-'", ", separator='_', lowercase=true, max_length=4",
+                 ", keep_zeros=true, max_length=1", ", max_length=0", ", separator='ab', max_length=3"):
+        t.append("{{ sanitize(value=bumped_branch%s) }}" % args)
+    for f in ("%Y-%m-%d", "compact_date", "compact_datetime", "%Q", "%", "%%", "%5", "%Y%", "%-", "%:z %Z %s %f %+", "%c %x %X %D %F %T %R %r %v %e %k %l %P %p %u %w %U %W %G %g %V %C %h %n %t", ""):
+        t.append("{{ format_timestamp(value=bumped_timestamp, format=\"%s\") }}" % f)
+    t.append("{{ prefix_if(value=bumped_branch, prefix='+') }}{{ prefix_if(value=post, prefix='-') }}")
+    return t
+
+
+def work_sweep(bins, branches, timestamps):
+    env = core.base_env(bins)
+    bad = []
+    n = 0
+    tpls = sweep_templates()
+    for i, b in enumerate(branches):
+        ts = timestamps[i % len(timestamps)]
+        for tp in tpls:
+            argv = ["version", "--source", "none", "--tag-version", "1.0.0", "--bumped-branch", b, "--bumped-timestamp", str(ts), "--output-template", tp]
+            r = core.run_zerv(bins, argv, env=env, timeout=20)
+            n += 1
+            case = dict(kind="fuzz", argv=argv, stdin=None, stdin_is_bytes=False)
+            for sig, why in judge(r, argv):
+                if sig != "__timeout__":
+                    bad.append((sig, why, case))
+    return dict(n=n, bad=bad)
+
+
+# ---------------------------------------------------------------------------
 # git fault enumeration
 # ---------------------------------------------------------------------------
 def build_repo(path, rng):
@@ -406,6 +445,17 @@ def run(ctx):
             ctx.refute(sig, why, case)
         for s in r["samples"][:1]:
             ctx.sample(s, cap=3)
+    from . import c04
+    brng = ctx.sub_rng("sweep")
+    names = list(c04.BRANCHES) + [c04.rand_branch(brng) for _ in range(40 if quick else 1500)]
+    names = [b for b in names if "\x00" not in b]
+    stamps = [0, 1, 1710511845, 2 ** 31, 2 ** 33, 253402300799, 253402300800, 2 ** 40, 2 ** 62, 2 ** 63 - 1]
+    for r in core.pmap(work_sweep, [(ctx.bins, p, stamps) for p in core.split_even(names, 16)]):
+        ctx.evaluations += r["n"]
+        ctx.count("template_function_sweep_runs", r["n"])
+        ctx.distinct_extra += r["n"]
+        for sig, why, case in r["bad"]:
+            ctx.refute(sig, why, case)
     nrep = 5 if quick else 48
     calls = set()
     for r in core.pmap(work_faults, [(ctx.bins, "%s/%d" % (ctx.prop, ctx.seed), i, ctx.tmp) for i in range(nrep)]):
